@@ -9,6 +9,9 @@ pub const ALPHABET: [&str; 5] = ["\n", "\r", "a", "é", "€"];
 /// Byte-level diversity: extreme characters of the UTF-8 length classes (continuation bytes 0xBF / 0x80).
 pub const ALPHABET_EDGE: [&str; 5] = ["\n", "\u{7ff}", "\u{ffff}", "\u{10000}", "\u{80}"];
 
+/// Characters whose code point truncated to a byte is LF / CR (see c12::ALPHABET_LOW).
+pub const ALPHABET_LOW: [&str; 5] = ["\n", "\r", "\u{10a}", "\u{4e0a}", "\u{1f60a}"];
+
 fn h<T: Hash>(t: &T) -> u64 {
     let mut s = DefaultHasher::new();
     t.hash(&mut s);
@@ -222,7 +225,7 @@ pub fn run(col: &Collector, thorough: bool, _seed: u64, jobs: usize) -> Value {
     vutil::run_workers(jobs, col, |w, n| {
         let mut l = Local::new();
         let mut s = String::new();
-        for (alphabet, limit) in [(&ALPHABET, max_len), (&ALPHABET_EDGE, max_len.saturating_sub(2))] {
+        for (alphabet, limit) in [(&ALPHABET, max_len), (&ALPHABET_EDGE, max_len.saturating_sub(2)), (&ALPHABET_LOW, max_len.saturating_sub(2))] {
             for len in 0..=limit {
                 let total = vutil::pow(k, len);
                 let mut idx = w as u64;
